@@ -410,12 +410,17 @@ var upReplies = []string{
 	"HTTP/1.1 200 OK\r\nContent-Length: 7\r\n\r\n",
 	"HTTP/1.1 200 OK\r\nTransfer-Encoding: chunked\r\n\r\n",
 	"HTTP/1.1 200 OK\r\nContent-Length: 7\r\nConnection: close\r\n\r\n",
+	"HTTP/1.1 200 \r\n\r\n", // shortest heads: no reason phrase
+	"HTTP/1.1 200\r\n\r\n",
+	"HTTP/1.0 200\r\n\r\n",
+	"HTTP/1.1 200 OK\r\nVia: 1.1 a\r\nVia: 1.1 b\r\nX-Empty:\r\nX-Long: " + strings.Repeat("v", 300) + "\r\n\r\n", // a line longer than the 128-byte reader
 }
 
 // upFraming is how net/http's readTransfer frames the body of each reply above
 // (chunked, declared length, closing): the input of ReplyReader.close_consumes.
 var upFraming = [][3]int{
 	{0, 0, 1}, {0, 0, 1}, {0, 0, 1}, {0, 0, 0}, {0, 0, 1}, {0, 7, 0}, {1, 0, 0}, {0, 7, 1},
+	{0, 0, 1}, {0, 0, 1}, {0, 0, 1}, {0, 0, 1},
 }
 
 func (sc *scenario) runClient(proxyAddr string, wg *sync.WaitGroup) {
